@@ -21,6 +21,8 @@
      last_descendant (= last visible descendant, same guard),
      traverse_bf_ltr_ttb (any passed filter) and traverse_df_ltr_btt, run without ambient filter, = level order / post-order;
        the three orders are permutations of the subtree's nodes,
+     _sort_nodes_in_document_order (no ambient filter, tag nodes of the tree) = the offered nodes in document order,
+     fetch_following / fetch_preceding = heads of the axes,
      full_text (= content of the D-visible text descendants in document order; the node's own content for a text node);
      and on the plain tree: child exactly once at its index, parent <-> child, inverse siblings, descendants = pre-order
      of the children relation, ancestors = parent chain, preceding ++ [n] ++ following = document order (pairwise disjoint).
@@ -168,6 +170,24 @@ Theorem C05_traversers_same_nodes : forall t, NoDup (ids t) -> forall n, In n (i
 Proof. exact traversers_same_nodes. Qed.
 Print Assumptions C05_traversers_same_nodes.
 
+(* the sorter of utils.py: the offered tag nodes, each once, in document order *)
+Theorem C05_sort : forall c inh, el_ok c = true -> NoDup (cel_ids c) ->
+  forall l, (forall n, In n l -> In n (ids (abs_el inh c)) /\ h_is_tag (heap_top c) n = true) ->
+  c_sort c ftrue l = Ok (a_doc_sort (abs_el inh c) l).
+Proof. exact c_sort_abs. Qed.
+Print Assumptions C05_sort.
+(* fetch_following / fetch_preceding are the heads of the two axes *)
+Theorem C05_fetch_following_partial : forall c inh, el_ok c = true -> NoDup (cel_ids c) ->
+  forall D F n, up_closed_b D (abs_el inh c) = true -> In n (ids (abs_el inh c)) ->
+  c_fetch_following c D F n = Ok (hd_error (filter (fand D F) (a_following (abs_el inh c) n))).
+Proof. exact c_fetch_following_abs. Qed.
+Print Assumptions C05_fetch_following_partial.
+Theorem C05_fetch_preceding : forall c inh, el_ok c = true -> NoDup (cel_ids c) ->
+  forall D F n, In n (ids (abs_el inh c)) ->
+  c_fetch_preceding c D F n = Ok (hd_error (filter F (a_preceding (abs_el inh c) n))).
+Proof. exact c_fetch_preceding_abs. Qed.
+Print Assumptions C05_fetch_preceding.
+
 (* full_text *)
 Theorem C05_full_text : forall c inh, el_ok c = true -> NoDup (cel_ids c) ->
   forall D n, In n (ids (abs_el inh c)) ->
@@ -211,9 +231,10 @@ Example C05_example_descendants :
   /\ c_getitem ex_tree ftrue 0%N (-2)%Z = Ok 6%N.
 Proof. vm_compute. repeat split; reflexivity. Qed.
 
-(* NOT covered by theorem; the model (Conc/CNav.v) of each is tied to the code by the correspondence check and the
-   relation is searched directly on the implementation by harness/props/c05.py on every run.  Target statements:
-
-   The traversers under an ambient filter or (df_btt) with passed filters: they prune at hidden nodes and always yield
-   the given root; modelled and compared, no theorem.
-   Lemma c_sort_abs : (all of l are tag nodes of the tree) -> c_sort c ftrue l = Ok (a_doc_sort (abs_el inh c) l). *)
+(* NOT covered by theorem (modelled in Conc/CNav.v, compared with the code and searched directly on every run):
+   - the traversers under an ambient filter, and traverse_df_ltr_btt / traverse_df_ltr_ttb with passed filters: they
+     walk through visible children only and yield the given root unconditionally;
+   - the sorter and `index` paths under an ambient filter (indexes are then positions among the visible siblings;
+     a hidden tag node raises InvalidCodePath);
+   - root-level siblings of a document (prologue / epilogue comments and PIs) and DETACHED text nodes: outside `cel`;
+     detached / parentless nodes are covered by the check (correspondence with `heap_loose`), not by a theorem. *)
